@@ -733,6 +733,22 @@ fn gen_bytes(rng: &mut Rng, tier: Tier) -> Vec<String> {
                 let extra = rng.below(40) as usize;
                 b.extend(rng.bytes(extra));
             }
+            4 => {
+                // commit markers that do not tile the frame LSNs (the check of /repo 891bbae): a marker
+                // record repeated at the end, or a marker record removed
+                let ends = record_ends(&b);
+                let markers: Vec<usize> = (0..ends.len()).filter(|i| ends[*i].1 == 2).collect();
+                if !markers.is_empty() {
+                    let i = markers[rng.below(markers.len() as u64) as usize];
+                    let start = if i == 0 { 0 } else { ends[i - 1].0 };
+                    let rec = b[start..ends[i].0].to_vec();
+                    if rng.chance(1, 2) {
+                        b.extend_from_slice(&rec);
+                    } else {
+                        b.drain(start..ends[i].0);
+                    }
+                }
+            }
             _ => {}
         }
         let seg = if rng.chance(1, 8) { spec.segment + 1 } else { spec.segment };
